@@ -92,7 +92,9 @@ def run_fsm(ctx):
                             p2 = s2["d"]["p"]
                             if p2 and isinstance(p2[-1], dict) and p2[-1].get("f") == "last_failure_time" and p2[-1].get("a") == INNER:
                                 stamps.append(b2)
-                    if any(b.dominates(x, bb) or b.dominates(bb, x) for x in stamps):
+                    # stamped before (a stamp dominates the write) or after on every path (no return reachable without a stamp)
+                    after_all = bool(stamps) and not any(r in b.reachable(bb, avoid_blocks=[x for x in stamps if x != bb]) for r in b.return_blocks() if r != bb) or bb in stamps
+                    if any(b.dominates(x, bb) for x in stamps) or after_all:
                         ctx.ok("fsm", key + ":stamped@%s" % (frm if not isinstance(frm, list) else "arm%s" % frm[0]), "last_failure_time written on the same path", site=s["sp"])
                     else:
                         ctx.violation("fsm", key + ":stamped", "%s moves the breaker to Open on a path that does not set last_failure_time: allow_request measures the reset timeout from that stamp, so after a failed half-open probe the (long elapsed) stamp of the first trip lets the very next request through instead of rejecting until the timeout has passed again" % name, site=s["sp"])
